@@ -1,10 +1,10 @@
-"""development driver: run one Obj extension stream against the PRIVATE theories tree (coq/wip/obj/tree)
+"""development driver: run one Obj extension stream alone (theories tree: $DEV_THEORIES, default coq/theories; it must be built)
    usage: dev.py c02|c04|c01|c09 [n] [thr,thr,...]"""
 import os, sys, json
 sys.path.insert(0, "/verif"); sys.path.insert(0, os.environ.get("DEEPDIFF_REPO", "/repo"))
 os.environ["SEPERMAN_DEEPDIFF_VERIF"] = "1"
 from harness import core
-core.THEORIES = os.environ.get("DEV_THEORIES", "/verif/coq/wip/obj/tree")
+core.THEORIES = os.environ.get("DEV_THEORIES", "/verif/coq/theories")
 core.Ctx.ensure_built = lambda self, header: None
 from harness import objcommon as O
 which = sys.argv[1]
@@ -22,3 +22,5 @@ for b in x["breaks"]:
     print("BREAK", json.dumps(b, default=repr)[:2500])
 print({k: v for k, v in ctx.counts.items() if "OBJ" in k or "thr" in k or "hyp" in k or "reverse" in k})
 print("elapsed %.1fs" % ctx.elapsed())
+import shutil
+shutil.rmtree(ctx.scratch, ignore_errors=True)
